@@ -4,6 +4,7 @@ package mice
 
 import (
 	"crypto/sha256"
+	"io"
 )
 
 // Independent implementation of draft-thomson-http-mice-02/-03 (recursive definition).
@@ -91,4 +92,85 @@ func refDigestHeader(draft03 bool, top []byte) string {
 		return "mi-sha256-03=" + refBase64(refStdAlphabet, true, top)
 	}
 	return "mi-sha256-draft2=" + refBase64(refURLAlphabet, false, top)
+}
+
+// refDecode is the specification of MI decoding, written from the drafts: it returns the payload that
+// the top-level proof D authenticates in `stream` up to the first failure, and whether the stream ends
+// cleanly (every record authenticated and the last one carries the 0x00 flag).
+//   headerErr: the record-size header is missing, zero or above maxRS (nothing may be output).
+func refDecode(draft03 bool, stream []byte, D []byte, maxRS uint64) (out []byte, clean bool, headerErr bool) {
+	if len(stream) == 0 && draft03 {
+		h := sha256.Sum256([]byte{0})
+		return nil, refEq(h[:], D), !refEq(h[:], D)
+	}
+	if len(stream) < 8 {
+		return nil, false, true
+	}
+	var rs uint64
+	for i := 0; i < 8; i++ {
+		rs = rs<<8 | uint64(stream[i])
+	}
+	if rs == 0 || rs > maxRS {
+		return nil, false, true
+	}
+	rest := stream[8:]
+	cur := D
+	for {
+		if uint64(len(rest)) >= rs+32 {
+			// a complete unit: record followed by the proof of the next record
+			r, p := rest[:rs], rest[rs:rs+32]
+			var msg []byte
+			msg = append(msg, r...)
+			msg = append(msg, p...)
+			msg = append(msg, 1)
+			h := sha256.Sum256(msg)
+			if !refEq(h[:], cur) {
+				return out, false, false
+			}
+			out = append(out, r...)
+			cur = p
+			rest = rest[rs+32:]
+			continue
+		}
+		if len(rest) == 0 {
+			// draft-02 allows an empty final record; draft-03 does not
+			if draft03 {
+				return out, false, false
+			}
+			h := sha256.Sum256([]byte{0})
+			return out, refEq(h[:], cur), false
+		}
+		if uint64(len(rest)) > rs {
+			return out, false, false // input ends inside a proof
+		}
+		var msg []byte
+		msg = append(msg, rest...)
+		msg = append(msg, 0)
+		h := sha256.Sum256(msg)
+		if !refEq(h[:], cur) {
+			return out, false, false
+		}
+		return append(out, rest...), true, false
+	}
+}
+
+func refEq(a, b []byte) bool {
+	return string(a) == string(b) // one equality term, no per-byte branching
+}
+
+// oneByteReader delivers one byte per Read call.
+type oneByteReader struct {
+	b []byte
+}
+
+func (r *oneByteReader) Read(p []byte) (int, error) {
+	if len(r.b) == 0 {
+		return 0, io.EOF
+	}
+	if len(p) == 0 {
+		return 0, nil
+	}
+	p[0] = r.b[0]
+	r.b = r.b[1:]
+	return 1, nil
 }
